@@ -23,6 +23,45 @@ CHECKS = {
                   "observation validation of recorded runs against the spec"),
 }
 
+CHECKS["C04"] = dict(
+    category="model_checking",
+    text="UplcBuiltins.tla gives every modelled builtin's denotation (from the Plutus builtin specification). MC_Builtin "
+         "enumerates each of the 89 builtins against the full product of per-position boundary pools (zero, negative, at and "
+         "one past each boundary, symbolic huge integers beyond 64/128 bits, empty / word-boundary byte strings, every Data "
+         "constructor, wrong-typed constants, non-constant values) x force counts x semantics variants; TLC computes the "
+         "expected result with the spec machine; every row is executed on the real machine twice (bare and inside another "
+         "program) and compared.",
+    design_ref="DESIGN.md section 6 C04, section 4.1 MC_Builtin",
+    note="Hashes, signatures, BLS arithmetic, expModInteger numerics and results beyond 2^30 are not computed by the spec "
+         "(TLC has 32-bit integers, no crypto): for those rows only typing / arity / failure shape and absence of crashes are "
+         "decided. Denotations are anchored on the upstream per-builtin conformance goldens.",
+    technique="TLA+ denotations of the builtins, TLC exhaustive enumeration over boundary pools + replay into the real machine")
+CHECKS["C05"] = dict(
+    category="model_checking",
+    text="MC_Budget.tla models the implementation-shaped accounting (finite budget, start-up charge, per-kind unbudgeted step "
+         "counters flushed every `slippage` steps, immediate builtin charges, final flush) next to the pure machine; TLC checks "
+         "Exact, Threshold and BatchBound for every term x slippage x budget in the bound, and every run is replayed on the real "
+         "Machine::new(lang, costs, budget, slippage) comparing verdict and remaining budget. Builtin costing functions are "
+         "compared row by row (MC_Builtin); random programs run under random slippage are validated (value and cost) by the "
+         "trace spec Obs_Uplc and re-run at budget C, C-1cpu, C-1mem.",
+    design_ref="DESIGN.md section 6 C05, section 4.1",
+    note="Default ledger cost parameters per variant (UplcCostTable.tla, validated against the upstream budget goldens through "
+         "the spec machine). Synthetic / permuted cost-parameter vectors are not covered. Costs above 2^31 are skipped.",
+    technique="TLA+ model of batched budget accounting checked by TLC (exactness, threshold), replayed into the real machine; "
+              "cost observations validated against the spec")
+CHECKS["C10"] = dict(
+    category="model_checking",
+    text="Evaluation side: the specification's Step is total (TLC finds no stuck state on open, ill-scoped and ill-typed "
+         "terms); every such term, every MC_Builtin row (forces-1/0/+1, huge and wrong-typed arguments), absurd indices and "
+         "tags, and random ill-typed programs are run on the real machine under several budgets (max, 0, negative, tiny with "
+         "slippage 1) and through the public Program::eval_version* + EvalResult accessors in a build with overflow checks: "
+         "any panic is a violation. Compilation side is exercised by the C01/C02 machinery.",
+    design_ref="DESIGN.md section 6 C10",
+    note="A hang is detected only through the harness timeout. Stack depth: the harness runs the machine on a 1 GiB stack, so "
+         "stack exhaustion on deep terms is not decided here (see C20).",
+    technique="TLC totality check of the spec machine on malformed terms + replay of every enumerated case into the real "
+              "machine under catch_unwind with overflow checks")
+
 NOT_BUILT = "not built yet (machinery under construction, see DESIGN.md section 10)"
 
 
